@@ -195,3 +195,81 @@ Proof.
   - eapply rel_fin; eassumption.
 Qed.
 End Inclusion.
+
+(* ---- inclusion decided by a finite check: a set of pairs of content-model states (below: those reachable together,
+   computed by a fuel-bounded closure; only the CHECK is relied on, not the closure) that forms a simulation ---- *)
+Definition pmem (p : nat * nat) (l : list (nat * nat)) : bool :=
+  existsb (fun x => Nat.eqb (fst x) (fst p) && Nat.eqb (snd x) (snd p)) l.
+Lemma pmem_in p l : pmem p l = true -> In p l.
+Proof.
+  unfold pmem. intro H. apply existsb_exists in H. destruct H as [x [Hx E]].
+  apply andb_true_iff in E. destruct E as [E1 E2]. apply Nat.eqb_eq in E1. apply Nat.eqb_eq in E2.
+  destruct x as [a b]. destruct p as [c d]. simpl in *. subst. exact Hx.
+Qed.
+
+Section CheckedInclusion.
+Variable T : Type.
+Variable all : list T.
+Hypothesis all_complete : forall t, In t all.
+Variables G1 G2 : grammar T.
+Variable reach : ctx T -> list (nat * nat).
+
+Definition pair_ok (c : ctx T) (p : nat * nat) : bool :=
+  forallb (fun t => match cm G1 c (fst p) t with
+                    | None => true
+                    | Some q1' => match cm G2 c (snd p) t with None => false | Some q2' => pmem (q1', q2') (reach c) end
+                    end) all &&
+  implb (fin G1 c (fst p)) (fin G2 c (snd p)).
+Definition ctx_ok (c : ctx T) : bool :=
+  pmem (0, 0) (reach c) && forallb (pair_ok c) (reach c) && implb (txt G1 c) (txt G2 c).
+Definition incl_ok : bool := ctx_ok None && forallb (fun t => ctx_ok (Some t)) all.
+
+Hypothesis ok : incl_ok = true.
+Lemma ctx_ok_all c : ctx_ok c = true.
+Proof.
+  pose proof ok as K. unfold incl_ok in K. apply andb_true_iff in K. destruct K as [H0 H1].
+  destruct c as [t|]; [|exact H0]. rewrite forallb_forall in H1. apply H1. apply all_complete.
+Qed.
+Lemma ctx_parts c :
+  pmem (0, 0) (reach c) = true /\ (forall p, In p (reach c) -> pair_ok c p = true) /\ (txt G1 c = true -> txt G2 c = true).
+Proof.
+  pose proof (ctx_ok_all c) as H. unfold ctx_ok in H.
+  apply andb_true_iff in H. destruct H as [H H3]. apply andb_true_iff in H. destruct H as [H1 H2].
+  split; [exact H1|]. split.
+  - intros p Hp. rewrite forallb_forall in H2. apply H2. exact Hp.
+  - intro F. rewrite F in H3. exact H3.
+Qed.
+Theorem checked_incl d : vdoc G1 d = true -> vdoc G2 d = true.
+Proof.
+  apply (vdoc_incl T G1 G2 (fun c q1 q2 => pmem (q1, q2) (reach c) = true)).
+  - intro t. apply (ctx_parts (Some t)).
+  - intros c q1 q2 t q1' R E. destruct (ctx_parts c) as [_ [P _]].
+    specialize (P (q1, q2) (pmem_in _ _ R)). unfold pair_ok in P.
+    apply andb_true_iff in P. destruct P as [P _]. rewrite forallb_forall in P. specialize (P t (all_complete t)).
+    cbn [fst snd] in P. rewrite E in P. destruct (cm G2 c q2 t) as [q2'|]; [|discriminate].
+    exists q2'. split; [reflexivity | exact P].
+  - intros c q1 q2 R F. destruct (ctx_parts c) as [_ [P _]].
+    specialize (P (q1, q2) (pmem_in _ _ R)). unfold pair_ok in P.
+    apply andb_true_iff in P. destruct P as [_ P]. cbn [fst snd] in P. rewrite F in P. exact P.
+  - intros c F. destruct (ctx_parts c) as [_ [_ P]]. apply P. exact F.
+  - apply (ctx_parts None).
+Qed.
+End CheckedInclusion.
+
+(* the pairs reachable together *)
+Section Reach.
+Variable T : Type.
+Variable all : list T.
+Variables G1 G2 : grammar T.
+Definition succs (c : ctx T) (p : nat * nat) : list (nat * nat) :=
+  flat_map (fun t => match cm G1 c (fst p) t, cm G2 c (snd p) t with Some a, Some b => [(a, b)] | _, _ => [] end) all.
+Fixpoint close (fuel : nat) (c : ctx T) (todo seen : list (nat * nat)) : list (nat * nat) :=
+  match fuel with
+  | 0 => seen
+  | S f => match todo with
+           | [] => seen
+           | p :: r => if pmem p seen then close f c r seen else close f c (succs c p ++ r) (p :: seen)
+           end
+  end.
+Definition reach_together (c : ctx T) : list (nat * nat) := close 400 c [(0, 0)] [].
+End Reach.
